@@ -139,7 +139,10 @@ static void exec(vh::Rng & r, vh::Out & out)
   for (int s = 0; s < len; ++s) {
     int what = (int)r.range(0, 5);
     if (what == 0) {
-      f = randomFrame(r); c->setAnchor(geo(f)); anchored = true;
+      Frame prev = f; bool was = anchored;
+      f = randomFrame(r);
+      if (was && r.coin(1, 3)) {f = prev; f.h = prev.h + r.pick(IV{-150, 1115, 9000 - prev.h});}      // same latitude / longitude, another height
+      c->setAnchor(geo(f)); anchored = true;
       out.put(vh::Ev("setAnchor").vec("la", f.la).vec("lo", f.lo).i("h", f.h).b("anch", c->isAnchored()));
     } else if (what == 1) {
       c->reset(); anchored = false;
@@ -147,6 +150,17 @@ static void exec(vh::Rng & r, vh::Out & out)
     } else if (what == 2 && !anchored) {
       // an un-anchored converter anchors itself on the first geodetic point it converts
       f = randomFrame(r);
+      if (r.coin(1, 3)) {
+        // the latitude / longitude overload: whatever altitude it assumes, the point converted first is the origin; the altitude
+        // of the anchor it chose is read back (an observation) and must be a finite height
+        Eigen::Vector3d v = c->toENU(makeWGS84Coordinates(ang(f.la), ang(f.lo, f.negPi))); anchored = c->isAnchored();
+        double alt = c->getAnchor().altitude;
+        f.h = std::isfinite(alt) && std::fabs(alt) < 1e6 ? (long long)std::llround(alt) : 123456789;
+        bool intAlt = std::isfinite(alt) && std::fabs(alt - (double)f.h) < 1e-9;
+        out.put(vh::Ev("toEnuGeo").vec("la", f.la).vec("lo", f.lo).i("h", intAlt ? f.h : 123456789).vec("mm", mm(v)).b("anch", c->isAnchored()));
+        if (!intAlt || !anchored) {return;}
+        continue;
+      }
       Eigen::Vector3d v = c->toENU(geo(f)); anchored = true;
       out.put(vh::Ev("toEnuGeo").vec("la", f.la).vec("lo", f.lo).i("h", f.h).vec("mm", mm(v)).b("anch", c->isAnchored()));
     } else if (anchored) {
